@@ -85,6 +85,36 @@ pub fn families() -> Vec<Box<dyn Family>> {
                 }
             },
         ),
+        family(
+            "big",
+            "G-BIG: long near-identical pairs (1000..6000 items quick / 30000 thorough; some cross 65536) with <= 8 edits, a block move or a duplicated block x {Myers, Patience} (LCS up to 1500) on random sub-ranges, through slices and red-zone lookups + shift-equivalence",
+            false,
+            1,
+            |cfg| if cfg.tiny { 2 } else { cfg.tier.pick(48, 480) },
+            |idx, cfg, out| {
+                let mut rng = Rng::for_case(cfg.seed, "c01.big", idx);
+                let huge = idx % 20 == 7 && !cfg.tiny;
+                let (lo, hi) = if cfg.tiny {
+                    (5, 12)
+                } else if huge {
+                    (65_530, 70_000)
+                } else {
+                    (1000, cfg.tier.pick(6000, 30_000))
+                };
+                let (a, b) = gen::big_pair(&mut rng, lo, hi);
+                let alg = if a.len().max(b.len()) <= 1500 && rng.chance(1, 3) { Algorithm::Lcs } else if rng.chance(1, 2) { Algorithm::Myers } else { Algorithm::Patience };
+                let (or, nr) = if rng.chance(1, 2) {
+                    (0..a.len(), 0..b.len())
+                } else {
+                    // keep the ranges aligned enough to stay near-identical
+                    let s = rng.below(a.len().min(b.len()) / 2 + 1);
+                    (s..a.len(), s..b.len())
+                };
+                out.sample(|| format!("alg={} N={} M={} ranges {:?} {:?}", alg_name(alg), a.len(), b.len(), or, nr));
+                out.count("big_cases");
+                sub_case(alg, &a, or, &b, nr, 1 | 2, out);
+            },
+        ),
     ]
 }
 
